@@ -953,6 +953,10 @@ def _to_np_tree(v, d):
     """Canonical NumPy form of a *member* value (what np.asarray(jax array) gives), nested -> dict."""
     if d["k"] == "nested":
         return {f: _to_np_tree(v["c"][f], d["c"][f]) for f in sorted(d["c"])}
+    if v["k"] != "leaf":  # a container that JAX converts to an array of the declared shape and dtype
+        import jax.numpy as jnp
+
+        return np.asarray(jnp.asarray(build_value(v)))
     with np.errstate(all="ignore"):
         return _np_leaf(v).astype(canon_dtype(v))
 
